@@ -52,6 +52,7 @@ type c03Expect struct {
 	Len2     [][]string `json:"lenient2,omitempty"`
 	HasRows2 bool       `json:"has_rows2,omitempty"`
 	Wrap     string     `json:"wrap,omitempty"` // "" | derived | cte: the grouped query sits in a derived table / CTE
+	OverJoin bool       `json:"over_join,omitempty"` // the grouped rows come from a join: only run-to-run identity is decided
 	Rows     []any      `json:"rows"`           // expected exact sequence
 	Lenient  [][]string `json:"lenient"`        // per output row: aliases whose value the statement leaves open
 }
@@ -375,9 +376,30 @@ func genC03WhereVar(t *rapid.T) *Bundle {
 	return &Bundle{Prop: "C03", Kind: "where_var", Case: c, Expect: mustJSON(e), Tags: []string{"where_var"}}
 }
 
+// genC03OverJoin: GROUP BY over the rows of a join. No reference result here (the join's own correctness is C04's):
+// what is decided is "identically on every run" - the same sequence of groups under every map order.
+func genC03OverJoin(t *rapid.T) *Bundle {
+	var left, right []any
+	for i := 0; i < rapid.IntRange(2, 6).Draw(t, "nleft"); i++ {
+		left = append(left, map[string]any{"id": float64(i + 1), "g": rapid.SampledFrom([]string{"a", "b", "c"}).Draw(t, "g")})
+	}
+	for i := 0; i < rapid.IntRange(2, 8).Draw(t, "nright"); i++ {
+		right = append(right, map[string]any{"uid": float64(rapid.IntRange(1, len(left)).Draw(t, "uid")), "amt": float64(rapid.IntRange(1, 5).Draw(t, "amt"))})
+	}
+	jt := rapid.SampledFrom([]string{"JOIN", "LEFT JOIN", "HASH_JOIN", "STRAIGHT_JOIN", "PARALLEL JOIN"}).Draw(t, "jt")
+	q := fmt.Sprintf("SELECT x.g, COUNT(*) AS c, SUM(y.amt) AS s FROM t x %s u y ON x.id = y.uid GROUP BY x.g", jt)
+	e := &c03Expect{OverJoin: true, Query: q}
+	sim := casefmt.SimConfig{Strategy: "np", MapPolicy: "rotate", MapSeed: uint64(rapid.IntRange(0, 1<<16).Draw(t, "map_seed"))}
+	c := oneClientCase("C03", sim, map[string]any{"t": left, "u": right}, casefmt.Op{Doc: 0, Vars: -1, Query: q})
+	return &Bundle{Prop: "C03", Kind: "over_join", Case: c, Expect: mustJSON(e), Tags: []string{"over_join"}}
+}
+
 func genC03(t *rapid.T) *Bundle {
-	if rapid.IntRange(0, 19).Draw(t, "where_var") == 0 {
+	switch rapid.IntRange(0, 19).Draw(t, "where_var") {
+	case 0:
 		return genC03WhereVar(t)
+	case 1:
+		return genC03OverJoin(t)
 	}
 	n := rapid.IntRange(0, 8).Draw(t, "nrows")
 	mixed := rapid.IntRange(0, 4).Draw(t, "mixed_keys") == 0
@@ -613,9 +635,17 @@ func evalC03(b *Bundle, r *Runner) []*Violation {
 		if si == 0 {
 			first = op.Rows
 		} else if string(first) != string(op.Rows) {
-			vs = append(vs, mkViolation(b, "GROUP_RUN_TO_RUN", "", fmt.Sprintf("%s\n under map order %s/%d: %s\n under map order %s/%d: %s", e.Query,
+			site := ""
+			if e.OverJoin {
+				site = "over_join"
+			}
+			vs = append(vs, mkViolation(b, "GROUP_RUN_TO_RUN", site, fmt.Sprintf("%s\n under map order %s/%d: %s\n under map order %s/%d: %s", e.Query,
 				sims[0].MapPolicy, sims[0].MapSeed, compact(first), sim.MapPolicy, sim.MapSeed, compact(op.Rows)), o))
 			return vs
+		}
+		if e.OverJoin {
+			r.Stats.probe("grouped_join_compared_run_to_run")
+			continue
 		}
 		got, ok := asArray(normJSON(op.Rows))
 		bad := !ok || len(got) != len(e.Rows)
